@@ -12,6 +12,19 @@ def run():
     if os.path.exists(os.path.join(V, "harness", "runtime", "verif_prelude.h")):
         t = make("libC")
         log("flavour C libgalois built in %.0fs" % t)
+    # the distributed libraries, every harness program, graph-convert and the applications: later checks then find everything built
+    t = make("libD")
+    log("flavour D (libdist + libgluon) built in %.0fs" % t)
+    fboth = ["alloc", "barriers", "collections", "doall", "foreach_a", "foreach_b", "foreach_c", "foreach_d", "morph", "pstl", "term"]
+    fonly = ["containers", "divide", "gfile", "staticg"]
+    conly = ["hb"]
+    db = [os.path.splitext(os.path.basename(x))[0] for x in glob.glob(os.path.join(V, "harness", "dist", "*.cpp"))]
+    apps = ["bfs", "sssp", "cc", "boruvka", "triangles", "kcore", "indset", "preflowpush", "mcm", "pagerank-pull", "pagerank-push"]
+    dapps = ["bfs-push", "bfs-pull", "sssp-push", "sssp-pull", "cc-push", "cc-pull", "kcore-push", "kcore-pull"]
+    t = make(*([fbin(b) for b in fboth + fonly] + [cbin(b) for b in fboth + conly] +
+               [os.path.join(BUILD, "D", "bin", b) for b in db] + [fbin("graph-convert")] + [fbin("app-" + a) for a in apps] +
+               [os.path.join(BUILD, "D", "bin", "dapp-" + a) for a in dapps]))
+    log("harness programs, graph-convert and applications built in %.0fs" % t)
     mods = [m for m in sorted(glob.glob(os.path.join(SPECS, "*", "*.tla")))
             if "TLAPS" not in open(m).read()]   # proof modules are checked by tlapm in their check
     bad = []
